@@ -68,6 +68,11 @@ def all_cells():
                 continue
             for cls in ("app", "exec", "hb", "tr", "rr", "gf", "custom", "test_req"):
                 cells.append(("A-send", role, st, cls, 0))
+    # A': sends attempted from inside the Logon processing (the application's on_state_change / on_logon callbacks, i.e. what a
+    # concurrent task sees while the acceptor is between receiving the Logon and answering it)
+    for hook_state in ("LOGON_INITIAL_RECV",):
+        for cls in ("app", "exec", "hb", "rr", "custom"):
+            cells.append(("A-send-in-logon", "acceptor", hook_state, cls, 0))
     # B: integrity defects
     for role in ("acceptor", "initiator"):
         for st in ("prelogon", "active", "awaiting"):
@@ -258,6 +263,48 @@ async def cell_A_send(acc, clock, cell, cid):
                              f"stored_out {o.st_out}->{n.st_out} rows {len(rows0)}->{len(rows1)}", w, cid)
     if n.state != o.state and st != "nce":
         return acc.violation(f"refused-send-changes-state:{st}", f"{o.state.name}->{n.state.name}", w, cid)
+
+
+async def cell_A_send_in_logon(acc, clock, cell, cid):
+    from asyncfix import FIXMessage
+    from asyncfix.errors import FIXConnectionError
+    from vf.sim.net import settle
+    _, role, hook_state, cls, _ = cell
+    b = await build(clock, role, "nce")
+    if b is None:
+        return
+    ep, j, peer = b
+    res = []
+
+    async def on_state(st):
+        if st.name == hook_state and not res:
+            mt, body = body_for(cls, 1)
+            before = (len(ep.vf_tap), ep._session.next_num_out)
+            try:
+                await ep.send_msg(FIXMessage(mt, {t: v for t, v in body}))
+                res.append(("accepted", before, (len(ep.vf_tap), ep._session.next_num_out)))
+            except FIXConnectionError:
+                res.append(("refused", before, (len(ep.vf_tap), ep._session.next_num_out)))
+            except Exception as e:
+                res.append((f"raised:{type(e).__name__}", before, None))
+    ep.vf_hooks["on_state_change"] = on_state
+    ep.vf_reader.feed(peer.logon())
+    await settle()
+    acc.oracle("A:send-refused")
+    w = {"cell": cell, "result": [str(r) for r in res], "tap": [fixwire.show(x)[:90] for x in ep.vf_tap.frames()], "state": ep.connection_state.name}
+    if not res:
+        acc.add("hook_state_not_reached")
+        return
+    r = res[0]
+    if r[0] == "accepted":
+        return acc.violation("send-accepted-before-logon-answered", f"{cls} sent from inside the Logon processing ({hook_state}) was accepted and went out before the Logon reply", w, cid)
+    if r[0].startswith("raised"):
+        return acc.violation(f"send-raised-other:{r[0][7:]}", f"{cls} in {hook_state}", w, cid)
+    if r[1] != r[2]:
+        return acc.violation("refused-send-has-effects:logon_recv", f"tap/counter {r[1]} -> {r[2]}", w, cid)
+    first = fixwire.parse(ep.vf_tap.frames()[0]) if ep.vf_tap.frames() else []
+    if fixwire.get(first, 35) != "A":
+        return acc.violation("first-frame-not-logon", f"first frame on the wire is 35={fixwire.get(first, 35)}", w, cid)
 
 
 def defect_frame(d, cls, s, E_, order, possdup=False):
@@ -544,6 +591,8 @@ def run_shard(spec, acc):
                     await cell_A_in(acc, clock, cell, cid)
                 elif cell[0] == "A-send":
                     await cell_A_send(acc, clock, cell, cid)
+                elif cell[0] == "A-send-in-logon":
+                    await cell_A_send_in_logon(acc, clock, cell, cid)
                 elif cell[0] == "B-drainfail":
                     await cell_B_drainfail(acc, clock, cell, cid)
                 elif cell[0] == "B":
